@@ -196,3 +196,197 @@ Example C19_nonvacuous_interpolation :
   /\ (nth 0 (pcum_of [1; 2; 1]%Q [0; 1; 3]%Q) 0 < 1 # 2 <= nth 1 (pcum_of [1; 2; 1]%Q [0; 1; 3]%Q) 0)%Q
   /\ (trap_area [1; 2; 1]%Q [0; 1; 3]%Q 0 == 3 # 2)%Q /\ (trap_area [1; 2; 1]%Q [0; 1; 3]%Q 1 == 9 # 2)%Q.
 Proof. vm_compute. repeat split; try lia; try discriminate; try reflexivity. Qed.
+
+(* ################################################################ proof-deepening round
+   (bodies in ProofsChol, ProofsDeep, ProofsStream, ProofsGeo2) *)
+From Coq Require Import Lia List.
+From EsVerif.C19 Require Import ModelChol ModelSPD ModelStream ProofsChol ProofsSPD ProofsDeep ProofsStream.
+Import ListNotations.
+
+(* ================================================================ numpy.linalg.cholesky in the model *)
+
+(* Whenever every pivot is positive (i.e. whenever numpy returns instead of raising LinAlgError) the
+   column-by-column factor of the model is lower triangular, has a positive diagonal and
+   L L^T = A on the n x n block, for every n: the contract that the harness monitors on numpy's
+   answer is a theorem of the model. *)
+Theorem C19_cholesky_factor_of_model_correct : forall (A : mat) (n : nat),
+  symmetric A n -> pivots_pos A n -> is_cholesky_factor A (cholR A n) n.
+Proof. exact cholR_correct. Qed.
+
+(* ... and that contract has no other solution: a matrix that passes it exactly IS the model's factor. *)
+Theorem C19_cholesky_factor_unique : forall (A : mat) (n : nat) (L : mat),
+  pivots_pos A n -> is_cholesky_factor A L n ->
+  forall i c, (i < n)%nat -> (c < n)%nat -> L i c = cholR A n i c.
+Proof. exact cholesky_factor_unique. Qed.
+
+(* The statement quantifies over symmetric POSITIVE-DEFINITE covariances: those are exactly the
+   matrices on which the model's factorisation goes through (all pivots positive; numpy raises
+   LinAlgError otherwise), so every covariance of the statement has its factor. *)
+Theorem C19_posdef_iff_cholesky_succeeds : forall (A : mat) (n : nat),
+  symmetric A n -> (posdef A n <-> pivots_pos A n).
+Proof. exact posdef_iff_pivots_pos. Qed.
+
+Theorem C19_every_spd_covariance_has_its_factor : forall (A : mat) (n : nat),
+  symmetric A n -> posdef A n -> is_cholesky_factor A (cholR A n) n.
+Proof. exact spd_has_cholesky_factor. Qed.
+
+(* the boolean monitor evaluated on numpy's answer is sound for the (toleranced) contract *)
+Theorem C19_cholesky_oracle_monitor_sound : forall cov M, chol_oracle_b cov M = true -> chol_oracle_ok cov M.
+Proof. exact chol_oracle_b_sound. Qed.
+
+(* ================================================================ index selection *)
+
+(* the checker decides the property (soundness was C19_random_indices; this adds completeness) *)
+Theorem C19_random_indices_checker_decides : forall imax nrand unique out,
+  ri_check imax nrand unique out = true <-> ri_ok imax nrand unique out.
+Proof. exact ri_check_iff. Qed.
+
+(* for a non-negative population the rejected requests are exactly the unsatisfiable ones *)
+Theorem C19_random_indices_rejects_exactly_unsatisfiable : forall imax nrand unique, (0 <= imax)%Z ->
+  (ri_accepts imax nrand unique = true <-> exists out, ri_ok imax nrand unique out).
+Proof. exact ri_accepts_iff_satisfiable. Qed.
+
+(* ================================================================ cumulative-method sampler: error paths *)
+
+(* which tables are rejected, with which error class (ValueError: shapes differ or empty grid;
+   IndexError: one grid point, or two grid points and at least one deviate); two points and no
+   deviate return the empty sample; three or more points of a valid table: C19_count_returned *)
+Theorem C19_sampler_rejections : forall pofx x us,
+  (length pofx <> length x -> gen_sample false pofx x us = Err EValue)
+  /\ (length pofx = length x -> length x = 0%nat -> gen_sample false pofx x us = Err EValue)
+  /\ (length pofx = length x -> length x = 1%nat -> gen_sample false pofx x us = Err EIndex)
+  /\ (length pofx = length x -> length x = 2%nat -> us <> [] -> gen_sample false pofx x us = Err EIndex)
+  /\ (length pofx = length x -> length x = 2%nat -> gen_sample false pofx x [] = Ok []).
+Proof. exact gen_sample_rejections. Qed.
+
+(* below the first tabulated cumulative value the sampler extrapolates the first segment of the
+   table: the value is at most x_1 ... *)
+Theorem C19_sampler_below_first_value_extrapolates : forall pofx x u, gen_ok pofx x ->
+  (u <= nth 0 (pcum_of pofx x) 0)%Q ->
+  exists y, sampler pofx x u = Ok y
+            /\ (y == lin (nth 0 (pcum_of pofx x) 0) (nth 1 (pcum_of pofx x) 0) (nth 1 x 0) (nth 2 x 0) u)%Q
+            /\ (y <= nth 1 x 0)%Q.
+Proof. exact sampler_below_first. Qed.
+
+(* ... and NOT bounded below by the first grid point: the restriction in C19_sampler_in_grid (and in
+   the statement) cannot be dropped.  Witness: density 10, 10, 1 on 0, 1, 2 sends u = 0 to -9/11
+   (the real Generator returns -0.8181...; 29% of its samples lie below 0). *)
+Theorem C19_sampler_in_grid_without_restriction_refuted :
+  exists pofx x u y, gen_ok pofx x /\ (0 <= u <= 1)%Q /\ sampler pofx x u = Ok y /\ (y < nth 0 x 0)%Q.
+Proof. exact sampler_in_grid_without_restriction_refuted. Qed.
+
+(* the repetition checker (bit-identical second run) is sound *)
+Theorem C19_repetition_checker_sound : forall a b, same_points a b = true ->
+  Forall2 (fun p q => (fst p == fst q /\ snd p == snd q)%Q) a b.
+Proof. exact same_points_sound. Qed.
+
+(* ================================================================ both branches of randcap *)
+
+(* forcing the rotation (dorot=True, or a centre within 0.1 deg of a pole) changes how the point is
+   computed, not which point it is: same direction on the sphere, same radius, for the same deviates *)
+Theorem C19_dorot_does_not_move_the_point : forall ra dec rad u upsi,
+  let '(ra1, dec1, r1) := randcap_unrot ra dec rad u upsi in
+  let '(ra2, dec2, r2) := randcap_rot ra dec rad u upsi in
+  eq2xyz ra1 dec1 = eq2xyz ra2 dec2 /\ r1 = r2.
+Proof. exact randcap_branches_agree. Qed.
+
+(* rotate() and atbound() keep their outputs in range for every input (used by both theorems above) *)
+Theorem C19_rotate_output_on_sky : forall phi theta psi ra dec, on_sky (rotate_R phi theta psi ra dec).
+Proof. exact on_sky_rotate. Qed.
+
+Theorem C19_atbound_range : forall lon, (-360 <= lon <= 720)%R -> (0 <= atbound lon <= 360)%R.
+Proof. exact atbound_once. Qed.
+
+(* ================================================================ randsphere(system='xyz') *)
+
+Theorem C19_box_xyz_unit_vector_in_box : forall ra0 ra1 dec0 dec1 u1 u2,
+  valid_box ra0 ra1 dec0 dec1 -> unit_dev u1 -> unit_dev u2 ->
+  let '(x, y, z) := randsphere_xyz_R ra0 ra1 dec0 dec1 u1 u2 in
+  (x * x + y * y + z * z = 1 /\ sin (d2r dec0) <= z <= sin (d2r dec1))%R.
+Proof. exact randsphere_xyz_in_box. Qed.
+
+(* ================================================================ reproducibility: deviate streams *)
+
+(* randcap(n, ...) takes exactly 2n deviates from its generator -- n for the radii, then n for the
+   position angles, in BOTH branches (the rotated branch hands the same generator on) -- returns a
+   function of its arguments and of those 2n deviates alone, and leaves the rest untouched *)
+Theorem C19_randcap_consumes_two_blocks : forall dorot n ra dec rad,
+  exact_consumer (randcap_call dorot n ra dec rad) (n + n) (two_blocks (randcap_R dorot ra dec rad) n).
+Proof. exact randcap_call_consumer. Qed.
+
+Theorem C19_randsphere_consumes_two_blocks : forall n ra0 ra1 dec0 dec1,
+  exact_consumer (randsphere_call n ra0 ra1 dec0 dec1) (n + n) (two_blocks (randsphere_R ra0 ra1 dec0 dec1) n).
+Proof. exact randsphere_call_consumer. Qed.
+
+(* the requested number of points comes back, and point i is the per-point model of the earlier
+   theorems on deviate i of the first block and deviate i of the second *)
+Theorem C19_two_blocks_pointwise : forall (O : Type) (f : R -> R -> O) n (p : list R) i d,
+  length p = (n + n)%nat -> (i < n)%nat ->
+  length (two_blocks f n p) = n /\ nth i (two_blocks f n p) d = f (nth i p 0%R) (nth (n + i) p 0%R).
+Proof. intros O f n p i d. exact (two_blocks_nth f n p i 0%R d). Qed.
+
+Theorem C19_sampler_consumes_n : forall pofx x n,
+  exact_consumer (sampler_call pofx x n) n (gen_sample false pofx x).
+Proof. exact sampler_call_consumer. Qed.
+
+Theorem C19_cholesky_consumes_npar_n : forall means M n,
+  exact_consumer (cholesky_call means M n) (length M * n) (chol_sample means M n).
+Proof. exact cholesky_call_consumer. Qed.
+
+(* HISTORY: two calls on one generator -- the second result is what the second call alone returns on
+   its own deviates; no argument or result of the first call enters it (the model has no other state) *)
+Theorem C19_calls_compose_without_state : forall (A O1 O2 : Type)
+    (f1 : list A -> option (O1 * list A)) (f2 : list A -> option (O2 * list A)) k1 k2 g1 g2,
+  exact_consumer f1 k1 g1 -> exact_consumer f2 k2 g2 ->
+  exact_consumer (then_call f1 f2) (k1 + k2) (fun p => (g1 (firstn k1 p), g2 (skipn k1 p))).
+Proof. exact @then_call_consumer. Qed.
+
+(* equal generators, equal arguments: equal results, generators left in corresponding positions *)
+Theorem C19_reproducible_for_equal_generators : forall (A O : Type) (f : list A -> option (O * list A)) k g p t t',
+  exact_consumer f k g -> length p = k ->
+  exists o, f (p ++ t) = Some (o, t) /\ f (p ++ t') = Some (o, t').
+Proof. exact @consumer_reproducible. Qed.
+
+(* ================================================================ non-vacuity *)
+Definition ex_cov : mat := fun i j =>
+  match i, j with
+  | O, O => 4 | O, S O => 2 | S O, O => 2 | S O, S O => 5 | _, _ => 0
+  end%R.
+
+Example C19_nonvacuous_cholesky :
+  symmetric ex_cov 2%nat /\ pivots_pos ex_cov 2%nat
+  /\ cholR ex_cov 2%nat 0%nat 0%nat = 2%R /\ cholR ex_cov 2%nat 1%nat 0%nat = 1%R /\ cholR ex_cov 2%nat 1%nat 1%nat = 2%R.
+Proof.
+  assert (S4 : sqrt (4 - 0) = 2%R) by (replace (4 - 0)%R with (2 * 2)%R by ring; apply sqrt_square; lra).
+  assert (P1 : chol_pivot ex_cov (chol_cols ex_cov 1%nat) 1%nat = 4%R).
+  { unfold chol_pivot. cbn [bigsum chol_cols]. unfold chol_step. cbn [Nat.eqb Nat.ltb Nat.leb]. unfold chol_pivot.
+    cbn [bigsum ex_cov]. rewrite S4. field. }
+  split; [|split; [|split; [|split]]].
+  - intros i j Hi Hj. destruct i as [|[|i]]; destruct j as [|[|j]]; try lia; reflexivity.
+  - intros j Hj. destruct j as [|[|j]]; try lia.
+    + unfold chol_pivot. cbn [bigsum ex_cov]. lra.
+    + rewrite P1. lra.
+  - unfold cholR. cbn [chol_cols]. unfold chol_step at 1. cbn [Nat.eqb]. unfold chol_step. cbn [Nat.eqb Nat.ltb Nat.leb].
+    unfold chol_pivot. cbn [bigsum ex_cov]. exact S4.
+  - unfold cholR. cbn [chol_cols]. unfold chol_step at 1. cbn [Nat.eqb]. unfold chol_step. cbn [Nat.eqb Nat.ltb Nat.leb].
+    unfold chol_pivot. cbn [bigsum ex_cov]. rewrite S4. field.
+  - unfold cholR. change (chol_cols ex_cov 2%nat) with (chol_step ex_cov (chol_cols ex_cov 1%nat) 1%nat).
+    unfold chol_step at 1. cbn [Nat.eqb Nat.ltb Nat.leb]. rewrite P1.
+    replace 4%R with (2 * 2)%R by ring. apply sqrt_square. lra.
+Qed.
+
+Example C19_nonvacuous_posdef : posdef ex_cov 2.
+Proof.
+  destruct C19_nonvacuous_cholesky as [S [P _]]. apply (proj2 (posdef_iff_pivots_pos ex_cov 2 S)). exact P.
+Qed.
+
+Example C19_nonvacuous_deep :
+  (exists out, ri_ok 5 3 true out) /\ ri_accepts 5 6 true = false /\ ri_accepts 5 6 false = true
+  /\ (exists o, randsphere_call 1 0 360 (-90) 90 [1 / 2; 1 / 2; 7]%R = Some (o, [7%R]))
+  /\ (exists o, sampler_call [1; 2; 1]%Q [0; 1; 3]%Q 2 [1 # 3; 2 # 3; 9 # 10]%Q = Some (o, [9 # 10]%Q))
+  /\ gen_sample false [1; 2]%Q [0; 1]%Q [1 # 2]%Q = Err EIndex.
+Proof.
+  split; [exists [0; 1; 2]%Z; apply ri_check_sound; reflexivity|].
+  split; [reflexivity|]. split; [reflexivity|].
+  split; [eexists; reflexivity|]. split; [eexists; reflexivity|]. reflexivity.
+Qed.
